@@ -100,6 +100,15 @@ class _Strip(ast.NodeTransformer):
             return ast.copy_location(ast.Pass(), node)
         return node
 
+    def visit_Assign(self, node):
+        # seen = set() / set([crumb])   (loop-detection crumbs)  ->  _vrt_CrumbSet(...)   [glue item 7]
+        self.generic_visit(node)
+        if (len(node.targets) == 1 and isinstance(node.targets[0], ast.Name) and node.targets[0].id == 'seen'
+                and isinstance(node.value, ast.Call) and isinstance(node.value.func, ast.Name) and node.value.func.id == 'set'):
+            node.value.func = ast.copy_location(ast.Name(id='_vrt_CrumbSet', ctx=ast.Load()), node.value.func)
+            self.removed += 1
+        return node
+
     def visit_Assert(self, node):
         # the message of a failing assert is formatted with (possibly symbolic) values: drop it
         if node.msg is not None:
@@ -260,6 +269,50 @@ def delog_all(*modules):
                 STATS['delog_removed'] += n
 
 
+class CrumbSet(object):
+    """Drop-in for the `seen = set()` of (state, next symbol, sent) crumbs in state.run / dfa_base.delegate.
+    Same membership semantics as a set of tuples (states compare by identity, `sent` is a concrete int), but
+    a crumb is only compared symbolically (next-symbol equality => solver query) with crumbs of the SAME state
+    and SAME sent count.  CrossHair's own set model scans linearly and decides one symbolic tuple equality per
+    stored crumb, which is quadratic in the input length."""
+
+    def __init__(self, items=()):
+        self.buckets = {}
+        self.other = []
+        for c in items:
+            self.add(c)
+
+    @staticmethod
+    def _key(c):
+        if type(c) is tuple and len(c) == 3 and type(c[2]) is int:
+            return (id(c[0]), c[2])
+        return None
+
+    def add(self, c):
+        k = self._key(c)
+        if k is None:
+            self.other.append(c)
+        else:
+            self.buckets.setdefault(k, []).append(c)
+
+    def __contains__(self, c):
+        k = self._key(c)
+        if k is None:
+            return any(o == c for o in self.other)
+        for o in self.buckets.get(k, ()):
+            a, b = o[1], c[1]
+            if a is b:
+                return True
+            if a is None or b is None:
+                continue
+            if a == b:
+                return True
+        return bool(self.other) and any(o == c for o in self.other)
+
+
+_automata._vrt_CrumbSet = CrumbSet
+
+
 # ---------------------------------------------------------------------------------------------
 # 3/4/5. CrossHair-specific patches
 # ---------------------------------------------------------------------------------------------
@@ -282,6 +335,7 @@ HASH_WHITELIST = {
 
 
 def _install_symbolic():
+    import z3
     _automata.struct = types.SimpleNamespace(
         Struct=StructShim, calcsize=_struct.calcsize, pack=_struct.pack, unpack=_struct.unpack,
         unpack_from=_struct.unpack_from, pack_into=_struct.pack_into, error=_struct.error)
@@ -309,6 +363,19 @@ def _install_symbolic():
         with NoTracing():
             sym = isinstance(inp, SymbolicInt)
         if sym:
+            with NoTracing():
+                # a symbolic int whose z3 term is a numeral (bytes that merely travelled through a symbolic container)
+                # needs no case split
+                const = None
+                try:
+                    simp = z3.simplify(inp.var)
+                    if z3.is_int_value(simp):
+                        const = simp.as_long()
+                except Exception:
+                    const = None
+            if const is not None:
+                STATS['getitem_const'] = STATS.get('getitem_const', 0) + 1
+                return _orig_getitem(self, const)
             assert not self.recognizers, "vrt: recognizers not supported with symbolic symbols"
             assert self.encoder is None, "vrt: encoder not supported with symbolic symbols"
             STATS['getitem_splits'] += 1
